@@ -757,6 +757,13 @@ class H2Connection:
 
         # Check we can open the stream.
         if stream_id not in self.streams:
+            if stream_id > self.HIGHEST_ALLOWED_STREAM_ID:
+                # It would not fit the 31 bits of the frame header.
+                raise ProtocolError(
+                    "Stream ID %d is higher than the highest allowed "
+                    "stream ID" % stream_id
+                )
+
             if (not self.config.client_side and
                     self._stream_id_is_outbound(stream_id) and
                     stream_id > self.highest_outbound_stream_id):
@@ -987,6 +994,13 @@ class H2Connection:
 
         if not self.remote_settings.enable_push:
             raise ProtocolError("Remote peer has disabled stream push")
+
+        if promised_stream_id > self.HIGHEST_ALLOWED_STREAM_ID:
+            # It would not fit the 31 bits of the frame field.
+            raise ProtocolError(
+                "Stream ID %d is higher than the highest allowed "
+                "stream ID" % promised_stream_id
+            )
 
         self.state_machine.process_input(ConnectionInputs.SEND_PUSH_PROMISE)
         stream = self._get_stream_by_id(stream_id)
